@@ -438,7 +438,7 @@ async fn task_release(rep: &mut Report, w: &World) {
 
 pub fn run(ctx: Ctx) -> Report {
     let quick = ctx.tier == crate::report::Tier::Quick;
-    let n_recv = ctx.tier.pick(800, 40_000);
+    let n_recv = ctx.tier.pick(4800, 160_000);
     let mut rep = run::run_sharded("C08", ctx.shards, move |shard, nshards, rep| {
         let mut rng = Rng::new(ctx.seed.wrapping_mul(53).wrapping_add(shard as u64) ^ 0xC08);
         for i in 0..n_recv / nshards {
